@@ -1309,7 +1309,7 @@ def attragree(repo):
     return res
 
 
-def elemsize(repo, schema=None, sites=None):
+def elemsize(repo, schema=None, sites=None, clauses=("none", "zero", "negative", "huge")):
     """R-ELEMSIZE (C14/C16): agreement between a back-end precondition and the front-end checks that establish it.
     header_generator asserts the *truthiness* of an array's element size (`assert element_size_in_bits`: neither None
     nor 0; GenericArrayView divides by it).  constraints.check_constraints must therefore reject both cases for every
@@ -1334,7 +1334,7 @@ def elemsize(repo, schema=None, sites=None):
     if not pre:
         raise AnalysisError("header_generator: the truthiness assertion on an array element size was not found")
     res.instances += len(pre)
-    have = {"none": False, "zero": False, "negative": False}
+    have = {"none": False, "zero": False, "negative": False, "huge": False}
     for s in sites:
         if s.pattern is None or not isinstance(s.action, Func) or not s.module.rel.endswith("front_end/constraints.py"):
             continue
@@ -1345,11 +1345,27 @@ def elemsize(repo, schema=None, sites=None):
                       for n in ast.walk(f.node))
         if not appends:
             continue
+        # locals holding the element's fixed size
+        esize = {}
+        for n in walk_no_nested_funcs(f.node):
+            if isinstance(n, ast.Assign) and len(n.targets) == 1 and isinstance(n.targets[0], ast.Name) and isinstance(n.value, ast.Call) \
+                    and "fixed_size_of_type_in_bits" in ast.unparse(n.value.func) and "base_type" in ast.unparse(n.value):
+                esize[n.targets[0].id] = ast.unparse(n.value)
         for n in walk_no_nested_funcs(f.node):
             if not isinstance(n, ast.Compare) or len(n.ops) != 1:
                 continue
             t = ast.unparse(n)
-            if isinstance(n.ops[0], ast.Is) and t.endswith("is None") and "size" in t:
+            if isinstance(n.left, ast.Name) and n.left.id in esize:
+                t = esize[n.left.id] + t[len(n.left.id):]
+                rhs = n.comparators[0]
+                try:
+                    val = eval(compile(ast.Expression(rhs), "<bound>", "eval"), {"__builtins__": {}}) if not any(
+                        isinstance(x, (ast.Name, ast.Call, ast.Attribute)) for x in ast.walk(rhs)) else None
+                except Exception:
+                    val = None
+                if isinstance(n.ops[0], (ast.GtE, ast.Gt)) and isinstance(val, int) and 2**32 <= val <= 2**67:
+                    have["huge"] = True
+            if isinstance(n.ops[0], ast.Is) and t.endswith("is None") and "size" in t and not (isinstance(n.left, ast.Name) and n.left.id in esize):
                 have["none"] = True
             if "fixed_size_of_type_in_bits" in t and "base_type" in t and (t.replace(" ", "").endswith(("==0", "<=0", "<1"))):
                 have["zero"] = True
@@ -1357,7 +1373,11 @@ def elemsize(repo, schema=None, sites=None):
                 have["negative"] = True
     f0, n0 = pre[0]
     for k, what in (("none", "an element type of unknown size"), ("zero", "a zero-sized element type (`Marker[3]` with only virtual fields, `UInt:8[0][4]`)"),
-                    ("negative", "a negative constant array length (`UInt:8[-1]`)")):
+                    ("negative", "a negative constant array length (`UInt:8[-1]`)"),
+                    ("huge", "an element whose fixed size does not fit in 64 bits (`UInt:64[0x2000_0000_0000_0000][]`: the size is "
+                             "printed as a size_t template argument; g++ truncates it to 0 and Ok() divides by zero, clang++ rejects the literal)")):
+        if k not in clauses:
+            continue
         res.instances += 1
         if not have[k]:
             res.add(f"compiler/front_end/constraints.py|check_constraints|array-{k}", f"{f0.qualname} asserts `{ast.unparse(n0.test)}` "
